@@ -12,17 +12,25 @@ driver, and an oracle that states the property on the implementation's own tenso
              CQN returns cql + 0.5*TD: the CQL term is computed by the harness from the same
              forward pass and handed to the model as an opaque input.  DDPG/TD3/MADDPG/MATD3
              return (actor_loss, critic_loss): the critic loss is compared.
+* (multi-agent batches give every agent its OWN done flags — one agent done, another not, on the same row —
+             in the loss and the meta suite; the meta suite then judges agent by agent)
 * meta     : metamorphic and exact.  Two identical copies of an agent (clones of one parent) learn
              from batch and batch' = batch with next_obs replaced on rows with done = 1 only, under
              identical seeds  =>  every weight of every network bit-equal afterwards, equal loss.
-             (RainbowDQN: the categorical projection re-normalises in float, so only the loss is
-             compared, with tolerance.)
+             RainbowDQN (plain, per, nstep, per_nstep; combined_reward on/off) gets INDEPENDENT 1-step and
+             n-step done flags (rows with done1=0/doneN=1 and vice versa); the 1-step next_obs is replaced on
+             done1=1 rows only, the n-step next_obs on doneN=1 rows only.  Its categorical projection
+             re-normalises in float32, so loss, new priorities, clipped gradient (1e-5 of its largest entry)
+             and weights (2e-6 on well-conditioned entries) are compared with tolerances 30x above the
+             measured noise; live-row controls show changes orders of magnitude larger.
 * track    : consecutive learn steps; online/target tensors are snapshotted around `learn` with
              walker.module_tensors (NOT parameters(): detached tensors are seen) and
              target_after is compared with blend(tau, online_after, target_before) (1e-6) on steps
              where the model's delay schedule fires, with "unchanged" otherwise; the model follows a
-             sample of the weights through `bellman init/step`.  Also directly after clone(), an
-             architecture mutation and a checkpoint round trip, and n direct soft_update() calls
+             sample of the weights through `bellman init/step`.  Also directly after clone(), after
+             learn -> one pass of Mutations.mutation() of EVERY kind (none, parameter, activation, rl_hp,
+             architecture; unit probability vectors) -> learn, for every learner, always on the LIVE
+             target modules (re-read from the agent after the mutation), and after a checkpoint round trip, and n direct soft_update() calls
              against the closed form.  "Targets REALLY move": after a firing step with tau > 0 a
              target whose online network differs from it must have changed.
 """
@@ -45,6 +53,7 @@ from common import ROOT, Check, InfraError, ddmin, frac
 LOSS_ALGOS = ["DQN", "DQN-double", "CQN", "CQN-double", "DDPG", "TD3", "MADDPG", "MATD3"]
 TRACK_ALGOS = ["DQN", "DQN-double", "CQN", "RainbowDQN", "DDPG", "TD3", "MADDPG", "MATD3"]
 DELAYED = ("DDPG", "TD3", "MATD3")
+MUT_KINDS = ("none", "param", "act", "rl_hp", "arch")
 # the multi-agent learners cost ~5 s per case (construction, clone): the quick tier draws them less often
 SINGLE_LOSS = [a for a in LOSS_ALGOS if not a.startswith("MA")]
 SINGLE_TRACK = [a for a in TRACK_ALGOS if not a.startswith("MA")]
@@ -76,6 +85,10 @@ def build_agent(case: dict):
         kw["action_kind"] = case["action_kind"]
     if algo == "RainbowDQN" and "n_step" in case:
         kw["n_step"] = int(case["n_step"])
+    if algo == "RainbowDQN" and case.get("combined_reward") is not None:
+        kw["combined_reward"] = bool(case["combined_reward"])
+    if case.get("prelude") == "mut-rl_hp":
+        kw["hp_config"] = agents.default_hp_config(algo)     # something for the rl_hp mutation to mutate
     return agents.build(algo, case.get("family", "vector"), seed=int(case["seed"]), **kw)
 
 
@@ -301,10 +314,17 @@ def returned_losses(algo: str, agent, ret) -> list[float]:
 
 def make_case_batch(agent, case, seed_offset: int = 0, dones=None):
     algo = base_algo(case["algo"])
-    return agents.make_batch(agent, algo, case.get("family", "vector"), n=batch_size_of(agent),
-                             seed=int(case["seed"]) + 17 + seed_offset,
-                             dones=case["dones"] if dones is None else dones,
-                             variant=case.get("variant", "plain"))
+    batch = agents.make_batch(agent, algo, case.get("family", "vector"), n=batch_size_of(agent),
+                              seed=int(case["seed"]) + 17 + seed_offset,
+                              dones=case["dones"] if dones is None else dones,
+                              variant=case.get("variant", "plain"))
+    if algo in ("MADDPG", "MATD3") and case.get("ma_dones"):
+        # agents that finish at different times: every agent gets its OWN done column
+        old = batch[4]
+        new = {aid: torch.as_tensor(case["ma_dones"][aid], dtype=old[aid].dtype).reshape(old[aid].shape)
+               for aid in old}
+        batch = agents.TupleBatch((batch[0], batch[1], batch[2], batch[3], new), form="ma_tuple")
+    return batch
 
 
 def run_loss_case(chk: Check, case: dict):
@@ -337,18 +357,32 @@ def run_loss_case(chk: Check, case: dict):
 
 
 # ----------------------------------------------------------------------------- metamorphic suite
-def run_meta_case(chk: Check, case: dict, rows=None):
-    """learn(batch) vs learn(batch') from two identical clones; -> (problems, tags, detail)"""
-    algo = base_algo(case["algo"])
-    multi = algo in ("MADDPG", "MATD3")
-    parent = build_agent(case)
-    pretrain(parent, case, int(case.get("pretrain", 1)))
+def identical_clones(parent, case):
     a, b = parent.clone(), parent.clone()
     wa, wb = all_weights(a), all_weights(b)
     if list(wa) != list(wb) or any(not torch.equal(wa[k], wb[k]) for k in wa):
         raise InfraError(f"C08 meta: two clones of one {case['algo']} parent are not identical "
                          "(cannot set up the metamorphic pair)")
-    dones = case["dones"]
+    return a, b
+
+
+def run_meta_case(chk: Check, case: dict, rows=None):
+    """learn(batch) vs learn(batch') from two identical clones; -> (problems, tags, detail).
+    Multi-agent learners are judged agent by agent: with per-agent done flags, the rows where agent i is
+    done are perturbed (whatever the other agents' flags say) and agent i's loss and networks must not change."""
+    algo = base_algo(case["algo"])
+    if algo == "RainbowDQN":
+        return run_meta_rainbow(chk, case, rows)
+    multi = algo in ("MADDPG", "MATD3")
+    parent = build_agent(case)
+    pretrain(parent, case, int(case.get("pretrain", 1)))
+    a, b = identical_clones(parent, case)
+    ids = list(parent.agent_ids) if multi else []
+    judge = int(case.get("judge", 0))
+    if multi and case.get("ma_dones"):
+        dones = list(case["ma_dones"][ids[judge]])
+    else:
+        dones = case["dones"]
     done_rows = [j for j, d in enumerate(dones) if d == 1]
     live_rows = [j for j, d in enumerate(dones) if d == 0]
     target_rows = done_rows if case.get("perturb", "done") == "done" else live_rows[:1]
@@ -356,55 +390,167 @@ def run_meta_case(chk: Check, case: dict, rows=None):
         rows = case["only_rows"]
     if rows is not None:
         target_rows = [j for j in target_rows if j in rows]
-    kw = {}
     batches = []
     for which in (0, 1):
         bt = make_case_batch(parent, case)
-        extra = None
-        if algo == "RainbowDQN" and case.get("variant", "plain") in ("nstep", "per_nstep"):
-            extra = agents.make_batch(parent, algo, case.get("family", "vector"), n=batch_size_of(parent),
-                                      seed=int(case["seed"]) + 7919, dones=dones)
         if which == 1:
             donor = make_case_batch(parent, case, seed_offset=4242)
             perturb_next(bt, donor, target_rows, multi)
-            if extra is not None:
-                donor2 = agents.make_batch(parent, algo, case.get("family", "vector"), n=batch_size_of(parent),
-                                           seed=int(case["seed"]) + 7919 + 4242, dones=dones)
-                perturb_next(extra, donor2, target_rows, False)
-        batches.append((bt, extra))
+        batches.append(bt)
     lseed = int(case["seed"]) + 5
     rets = []
-    for ag, (bt, extra) in zip((a, b), batches):
-        kw = {}
-        if algo == "RainbowDQN":
-            if case.get("variant", "plain") in ("per", "per_nstep"):
-                kw["per"] = True
-            if extra is not None:
-                kw["n_experiences"] = extra
+    for ag, bt in zip((a, b), batches):
         agents.seed_all(lseed)
-        rets.append(ag.learn(bt, **kw))
+        rets.append(ag.learn(bt))
     la, lb = returned_losses(algo, a, rets[0]), returned_losses(algo, b, rets[1])
     wa, wb = all_weights(a), all_weights(b)
     differing = [k for k in wa if not torch.equal(wa[k], wb[k])]
-    changed = bool(differing) or la != lb
     problems = []
-    if case.get("perturb", "done") == "done":
-        if algo == "RainbowDQN":
-            if not all(close(x, y2) for x, y2 in zip(la, lb)):
-                problems.append(f"RainbowDQN[{case.get('variant')}]: next_obs of done rows {target_rows} changed "
-                                f"the loss: {la} vs {lb}")
+    tags = [f"meta-{case['algo']}", f"perturbed-{min(len(target_rows), 4)}-rows"]
+    if multi:
+        # the agents for which every perturbed row is a done row
+        per_agent = case.get("ma_dones") or {aid: case["dones"] for aid in ids}
+        judged = [k for k, aid in enumerate(ids) if all(per_agent[aid][r] == 1 for r in target_rows)]
+        others = [k for k in range(len(ids)) if k not in judged]
+        mine = {k: [n for n in differing if f"[{k}]." in n] for k in range(len(ids))}
+        if case.get("ma_dones"):
+            tags.append("per-agent-dones")
+        if case.get("perturb", "done") == "done":
+            for k in judged:
+                if la[k] != lb[k]:
+                    problems.append(f"{case['algo']}: next_obs of rows {target_rows}, on which agent {ids[k]} is marked "
+                                    f"done, influenced {ids[k]}'s critic loss: {la[k]} vs {lb[k]}")
+                if mine[k]:
+                    problems.append(f"{case['algo']}: next_obs of rows {target_rows}, on which agent {ids[k]} is marked "
+                                    f"done, influenced {ids[k]}'s update: {len(mine[k])} of its weight tensors differ, "
+                                    f"e.g. {mine[k][:3]}")
+            if others:
+                tags.append("live-agents-changed" if any(la[k] != lb[k] or mine[k] for k in others)
+                            else "live-agents-unchanged")
+            changed = bool(differing) or la != lb
         else:
+            changed = la[judge] != lb[judge] or bool(mine[judge])
+    else:
+        changed = bool(differing) or la != lb
+        if case.get("perturb", "done") == "done":
             if la != lb:
                 problems.append(f"{case['algo']}: next_obs of rows marked done {target_rows} influenced the loss: "
                                 f"{la} vs {lb}")
             if differing:
                 problems.append(f"{case['algo']}: next_obs of rows marked done {target_rows} influenced the update: "
                                 f"{len(differing)} weight tensors differ afterwards, e.g. {differing[:3]}")
-    tags = [f"meta-{case['algo']}", f"perturbed-{min(len(target_rows), 4)}-rows"]
     if case.get("perturb") == "live":
         tags.append("sensitive-live-row" if changed else "INSENSITIVE-live-row")
     return problems, tags, {"perturbed_rows": target_rows, "loss": la, "loss_perturbed": lb,
                             "differing_tensors": differing[:5], "changed": changed}
+
+
+GRAD_REL_TOL = 1e-5        # measured float noise of the clipped gradient: <= 3e-7 of its largest entry
+W_TOL = 2e-6               # weights, on entries whose gradient is well conditioned for Adam's normalisation
+
+
+def grads_of(agent) -> "OrderedDict[str, torch.Tensor]":
+    return OrderedDict((n, p.grad.detach().clone()) for n, p in unwrap(agent.actor).named_parameters()
+                       if p.grad is not None)
+
+
+def run_meta_rainbow(chk: Check, case: dict, rows=None):
+    """RainbowDQN, all four variants, INDEPENDENT 1-step and n-step done flags: the 1-step next_obs is
+    replaced on rows with done1 = 1 only and the n-step next_obs on rows with doneN = 1 only.
+    The categorical projection sums the target probabilities of a done row in float32 (they sum to 1 up to
+    rounding), so nothing is bit-equal: loss, new priorities and the clipped gradient are compared with a
+    relative tolerance, the weights with a tolerance scaled by the learning rate, and control cases show
+    that replacing a live row's next_obs changes all of them by orders of magnitude more."""
+    variant = case.get("variant", "plain")
+    nstep = variant in ("nstep", "per_nstep")
+    per = variant in ("per", "per_nstep")
+    fam = case.get("family", "vector")
+    parent = build_agent(case)
+    pretrain(parent, case, int(case.get("pretrain", 1)))
+    a, b = identical_clones(parent, case)
+    d1 = list(case["dones"])
+    dn = list(case.get("n_dones") or case["dones"])
+    n = batch_size_of(parent)
+    if case.get("perturb", "done") == "done":
+        rows1 = [j for j, d in enumerate(d1) if d == 1]
+        rowsn = [j for j, d in enumerate(dn) if d == 1]
+    else:
+        # a live row of the batch that the loss really uses
+        use_n = nstep and not bool(getattr(parent, "combined_reward", False))
+        rows1 = [] if use_n else [j for j, d in enumerate(d1) if d == 0][:1]
+        rowsn = [j for j, d in enumerate(dn) if d == 0][:1] if use_n else []
+    if rows is None and case.get("only_rows") is not None:
+        rows = case["only_rows"]
+    if rows is not None:
+        rows1 = [j for j in rows1 if j in rows]
+        rowsn = [j for j in rowsn if j in rows]
+    base_seed = int(case["seed"])
+
+    def pair(which):
+        bt = agents.make_batch(parent, "RainbowDQN", fam, n=n, seed=base_seed + 17, dones=d1, variant=variant)
+        ex = agents.make_batch(parent, "RainbowDQN", fam, n=n, seed=base_seed + 7919, dones=dn) if nstep else None
+        if which == 1:
+            perturb_next(bt, agents.make_batch(parent, "RainbowDQN", fam, n=n, seed=base_seed + 17 + 4242,
+                                               dones=d1, variant=variant), rows1, False)
+            if ex is not None:
+                perturb_next(ex, agents.make_batch(parent, "RainbowDQN", fam, n=n, seed=base_seed + 7919 + 4242,
+                                                   dones=dn), rowsn, False)
+        return bt, ex
+    lseed = base_seed + 5
+    rets, grads = [], []
+    for ag, which in ((a, 0), (b, 1)):
+        bt, ex = pair(which)
+        kw = {}
+        if per:
+            kw["per"] = True
+        if ex is not None:
+            kw["n_experiences"] = ex
+        agents.seed_all(lseed)
+        rets.append(ag.learn(bt, **kw))
+        grads.append(grads_of(ag))
+    la, lb = float(rets[0][0]), float(rets[1][0])
+    pa = None if rets[0][2] is None else np.asarray(rets[0][2], dtype=np.float64).reshape(-1)
+    pb = None if rets[1][2] is None else np.asarray(rets[1][2], dtype=np.float64).reshape(-1)
+    gmax = max([float(g.abs().max()) for g in grads[0].values()] + [1e-12])
+    gdiff = max([float((grads[0][k] - grads[1][k]).abs().max()) for k in grads[0]] + [0.0])
+    # weights: Adam divides by sqrt(v)+eps, so an entry whose gradient is (numerically) zero amplifies rounding
+    # noise up to the learning rate; compare the entries whose gradient is at least 1e-4 of the largest one
+    pa_, pb_ = dict(unwrap(a.actor).named_parameters()), dict(unwrap(b.actor).named_parameters())
+    wdiff = 0.0
+    for k in grads[0]:
+        mask = (grads[0][k].abs() >= 1e-4 * gmax) & (grads[1][k].abs() >= 1e-4 * gmax)
+        if bool(mask.any()):
+            wdiff = max(wdiff, float((pa_[k].detach() - pb_[k].detach())[mask].abs().max()))
+    pdiff = 0.0 if pa is None else float(np.abs(pa - pb).max())
+    lr = float(parent.lr)
+    w_tol = W_TOL
+    loss_ok = close(la, lb)
+    prio_ok = pa is None or all(close(float(x), float(y2), absol=1e-6) for x, y2 in zip(pa, pb))
+    grad_ok = gdiff <= GRAD_REL_TOL * gmax
+    w_ok = wdiff <= w_tol
+    what = (f"RainbowDQN[{variant}, n_step={parent.n_step}, combined_reward={bool(parent.combined_reward)}]: "
+            f"1-step next_obs replaced on rows {rows1} (done1=1), n-step next_obs on rows {rowsn} (doneN=1); "
+            f"done1={d1} doneN={dn}")
+    problems = []
+    if case.get("perturb", "done") == "done":
+        if not loss_ok:
+            problems.append(f"{what}: the loss changed: {la} vs {lb}")
+        if not prio_ok:
+            problems.append(f"{what}: the new priorities changed by up to {pdiff:.3g}")
+        if not grad_ok:
+            problems.append(f"{what}: the gradient changed by {gdiff:.3g} (largest entry {gmax:.3g})")
+        if not w_ok:
+            problems.append(f"{what}: the weights after the step differ by up to {wdiff:.3g} (lr {lr:g})")
+    tags = [f"meta-RainbowDQN-{variant}", f"perturbed-{min(len(rows1) + len(rowsn), 4)}-rows",
+            "combined-reward" if bool(parent.combined_reward) else "single-reward"]
+    if nstep and any(x != y2 for x, y2 in zip(d1, dn)):
+        tags.append("done1-differs-from-doneN")
+    changed = not (loss_ok and prio_ok and grad_ok and w_ok)
+    if case.get("perturb") == "live":
+        tags.append("sensitive-live-row" if changed else "INSENSITIVE-live-row")
+    return problems, tags, {"perturbed_rows_1step": rows1, "perturbed_rows_nstep": rowsn, "loss": la,
+                            "loss_perturbed": lb, "max_priority_diff": pdiff, "max_grad_diff": gdiff,
+                            "max_grad": gmax, "max_weight_diff": wdiff, "changed": changed}
 
 
 # ----------------------------------------------------------------------------- tracking suite
@@ -464,12 +610,23 @@ def apply_prelude(agent, case):
     note = {}
     if prelude == "clone":
         agent = agent.clone()
-    elif prelude == "mutation":
+    elif prelude == "mutation" or prelude.startswith("mut-"):
+        # one pass of Mutations.mutation() of exactly one kind (unit probability vector).  Every pass, also a
+        # "no mutation" one, re-creates the shared (target) networks from the evaluation networks.
         from agilerl.hpo.mutation import Mutations
-        mut = Mutations(no_mutation=0, architecture=1, new_layer_prob=0.5, parameters=0, activation=0, rl_hp=0,
+        kind = "arch" if prelude == "mutation" else prelude[4:]
+        if kind not in MUT_KINDS:
+            raise InfraError(f"unknown mutation prelude {prelude!r}")
+        vec = {k: int(k == kind) for k in MUT_KINDS}
+        mut = Mutations(no_mutation=vec["none"], architecture=vec["arch"], new_layer_prob=0.5,
+                        parameters=vec["param"], activation=vec["act"], rl_hp=vec["rl_hp"],
                         rand_seed=int(case["seed"]) % (2 ** 31), device="cpu")
+        online_before = {lab: id(on) for lab, on, _t in target_pairs(agent)}
+        target_before = {lab: id(tg) for lab, _o, tg in target_pairs(agent)}
         agent = mut.mutation([agent])[0]
         note["mut"] = str(getattr(agent, "mut", None))
+        note["online_module_replaced"] = any(id(on) != online_before.get(lab) for lab, on, _t in target_pairs(agent))
+        note["target_module_replaced"] = any(id(tg) != target_before.get(lab) for lab, _o, tg in target_pairs(agent))
     elif prelude == "load":
         fd, path = tempfile.mkstemp(prefix="c08_", suffix=".pt")
         os.close(fd)
@@ -554,9 +711,14 @@ def run_track_case(chk: Check, case: dict):
                         tags.append("skipped-not-restored-by-load")
                     continue
                 exp = tau * won[k].detach().double() + (1 - tau) * wbef[k].double()
-                err = float((wtg[k].detach().double() - exp).abs().max()) if exp.numel() else 0.0
+                # float32 rounding of tau*e + (1-tau)*t grows with the magnitude of the weights (parameter
+                # mutations produce weights of size 10 and more): 1e-6 absolute, or relative to the operands
+                scale = torch.clamp(tau * won[k].detach().double().abs() + (1 - tau) * wbef[k].double().abs(), min=1.0)
+                excess = ((wtg[k].detach().double() - exp).abs() / scale)
+                err = float(excess.max()) if exp.numel() else 0.0
                 if not err <= BLEND_TOL:
-                    bad.append((k, f"max |target_after - (tau*online_after + (1-tau)*target_before)| = {err:.3g}"))
+                    bad.append((k, f"max |target_after - (tau*online_after + (1-tau)*target_before)| / max(1, |operands|) "
+                                   f"= {err:.3g}"))
                 if not torch.equal(won[k].detach(), wbef[k]):
                     off.append(k)
             if tau > 0 and off and not moved:
@@ -619,7 +781,7 @@ def run_track_case(chk: Check, case: dict):
         elif impl[0] == "vec":
             words = mo.split()
             vals = [rat_to_float(w) for w in words] if mo not in ("bad-op", "reject") else []
-            ok = len(vals) == len(impl[1]) and all(abs(a - b) <= BLEND_TOL * max(1, int(case.get("direct", 1)))
+            ok = len(vals) == len(impl[1]) and all(abs(a - b) <= BLEND_TOL * max(1, int(case.get("direct", 1))) * max(1.0, abs(a), abs(b))
                                                    for i, (a, b) in enumerate(zip(impl[1], vals)) if i not in skip)
             shown_impl.append("softn " + " ".join(f"{v:.6g}" for v in impl[1][:6]))
             shown_model.append("softn " + " ".join(f"{v:.6g}" for v in vals[:6]))
@@ -633,7 +795,8 @@ def run_track_case(chk: Check, case: dict):
                 mf, mc = words[0] == "1", int(words[1])
                 vals = [rat_to_float(w) for w in words[2:]]
                 ok = (mf == bool(fired)) and (not delayed or mc == cnt) and \
-                    all(abs(a - b) <= BLEND_TOL for i, (a, b) in enumerate(zip(vec, vals)) if i not in skip)
+                    all(abs(a - b) <= BLEND_TOL * max(1.0, abs(a), abs(b))
+                        for i, (a, b) in enumerate(zip(vec, vals)) if i not in skip)
                 shown_model.append(f"{int(mf)} {mc if delayed else '-'} " + " ".join(f"{v:.6g}" for v in vals[:6]))
             shown_impl.append(f"{int(bool(fired))} {cnt if delayed else '-'} " + " ".join(f"{v:.6g}" for v in vec[:6]))
             # from now on nothing is skipped once a firing step has refreshed every tensor
@@ -650,7 +813,7 @@ def run_track_case(chk: Check, case: dict):
 
 
 # ----------------------------------------------------------------------------- generators
-def gen_loss_case(rng, tier: str, name: str | None = None) -> dict:
+def gen_loss_case(rng, tier: str, name: str | None = None, ma_dones: bool = True) -> dict:
     name = name or rng.choice(LOSS_ALGOS + (SINGLE_LOSS if tier == "quick" else []))
     algo = base_algo(name)
     fams = ["vector", "vector", "discrete", "image", "dict"] if tier == "thorough" else ["vector", "vector", "vector", "discrete", "dict"]
@@ -668,17 +831,46 @@ def gen_loss_case(rng, tier: str, name: str | None = None) -> dict:
         if algo == "MATD3":
             case["policy_freq"] = rng.choice([1, 2])
     case["dones"] = gen_dones(rng, 8)
+    if algo in ("MADDPG", "MATD3") and ma_dones:
+        case["ma_dones"] = gen_ma_dones(rng, 8)
+        case["dones"] = list(case["ma_dones"][agents.AGENT_IDS[0]])
     return case
 
 
-def gen_meta_case(rng, tier: str, name: str | None = None) -> dict:
+def gen_ma_dones(rng, n: int) -> dict:
+    """independent done flags per agent; at least one row where one agent is done and another is not,
+    and every agent has a done row and a live row"""
+    while True:
+        d = {aid: gen_dones(rng, n) for aid in agents.AGENT_IDS}
+        cols = list(zip(*d.values()))
+        if any(0 < sum(c) < len(c) for c in cols):
+            return d
+
+
+def gen_meta_case(rng, tier: str, name: str | None = None, variant: str | None = None) -> dict:
     name = name or rng.choice(LOSS_ALGOS + ["RainbowDQN"] + (SINGLE_LOSS if tier == "quick" else []))
     if name == "RainbowDQN":
-        case = {"algo": "RainbowDQN", "family": rng.choice(["vector", "discrete"]), "seed": rng.randrange(1 << 24),
-                "gamma": rng.choice([0.99, 0.5]), "tau": rng.choice([0.5, 0.01]), "pretrain": rng.choice([0, 1]),
-                "variant": rng.choice(["plain", "per", "nstep", "per_nstep"]), "dones": gen_dones(rng, 8)}
+        variant = variant or rng.choice(["plain", "per", "nstep", "per_nstep"])
+        case = {"algo": "RainbowDQN", "family": rng.choice(["vector", "vector", "discrete"] if tier == "quick"
+                                                            else ["vector", "discrete", "image", "dict"]),
+                "seed": rng.randrange(1 << 24),
+                "gamma": rng.choice([0.99, 0.5, 0.9]), "tau": rng.choice([0.5, 0.01]), "pretrain": rng.choice([0, 1, 2]),
+                "variant": variant, "n_step": rng.choice([2, 3]),
+                "combined_reward": rng.choice([True, False]), "dones": gen_dones(rng, 8)}
+        # the n-step window may run into the end of the episode when the first step does not, and an n-step
+        # sample may be live where the 1-step sample drawn with it is terminal: independent flags, with both
+        # kinds of disagreement present
+        while True:
+            nd = gen_dones(rng, 8)
+            pairs = set(zip(case["dones"], nd))
+            if (0, 1) in pairs and (1, 0) in pairs:
+                break
+        case["n_dones"] = nd
     else:
-        case = gen_loss_case(rng, tier, name)
+        # multi-agent: half of the cases give every agent its own done flags
+        case = gen_loss_case(rng, tier, name, ma_dones=rng.random() < 0.6)
+        if base_algo(name) in ("MADDPG", "MATD3"):
+            case["judge"] = rng.randrange(len(agents.AGENT_IDS))
     case["kind"] = "meta"
     case["perturb"] = "done" if rng.random() < 0.8 else "live"
     return case
@@ -695,7 +887,7 @@ def gen_track_case(rng, tier: str, name: str | None = None, prelude: str | None 
             "tau": rng.choice([0.01, 0.005, 0.5, 0.5, 1.0, 0.25]),
             "pretrain": rng.choice([0, 1, 2]),
             "steps": rng.choice([2, 3, 4]) if tier == "quick" else rng.choice([3, 4, 6, 7]),
-            "prelude": prelude or rng.choice(["fresh", "fresh", "clone", "mutation", "load"]),
+            "prelude": prelude or rng.choice(["fresh", "clone", "load"] + ["mut-" + k for k in MUT_KINDS]),
             "direct": rng.choice([0, 0, 2, 5])}
     if algo in DELAYED:
         case["policy_freq"] = rng.choice([1, 2, 3])
@@ -708,6 +900,8 @@ def gen_track_case(rng, tier: str, name: str | None = None, prelude: str | None 
     if algo == "RainbowDQN":
         case["variant"] = rng.choice(["plain", "per", "nstep", "per_nstep"])
         case["n_step"] = rng.choice([1, 3])
+    if case["prelude"] == "mutation" or case["prelude"].startswith("mut-"):
+        case["pretrain"] = max(1, case["pretrain"])       # learn -> mutate -> learn
     if case["prelude"] == "load":
         case["load_via"] = rng.choice(["load_checkpoint", "classmethod"])
     return case
@@ -812,15 +1006,19 @@ def run(chk: Check) -> None:
     chk.rule = ("three suites on real agents with the smallest legal networks: 'loss' (learner x observation family x "
                 "gamma x done pattern x pretraining: model loss from the networks' own outputs vs learn()'s return), "
                 "'meta' (two identical clones learn from batch / batch with next_obs replaced on done rows only: "
-                "bit-equal weights and loss; 20% perturb a live row instead to show the test can see a difference), "
+                "bit-equal weights and loss; multi-agent batches with per-agent done flags judged agent by agent; RainbowDQN x 4 "
+                "variants with independent 1-step/n-step done flags, toleranced loss/priorities/gradient/weights; 20% perturb "
+                "a live row instead to show the test can see a difference), "
                 "'track' (learner x tau in {small, .25, .5, 1} x policy_freq in {1,2,3} x prelude in {fresh, clone, "
-                "architecture mutation, checkpoint load} x 2-7 consecutive learn steps + n direct soft updates: "
+                "learn->Mutations.mutation(none|param|act|rl_hp|arch)->learn for every learner, checkpoint load} x 2-7 consecutive learn steps + n direct soft updates: "
                 "target_after vs blend(tau, online_after, target_before) over ALL tensors, model follows a sample); "
                 "distinct = distinct case dict; non-trivial = a done row was present (loss/meta) or a target moved (track)")
     chk.assumptions = [
         "network forward passes, the optimiser step, the CQL regulariser and target-policy noise are inputs of the model",
-        "float32 arithmetic: loss compared with relative tolerance 1e-5, blended weights with absolute tolerance 1e-6",
-        "RainbowDQN: only target tracking and (toleranced) loss-invariance are checked here; its distributional target is C18",
+        "float32 arithmetic: loss compared with relative tolerance 1e-5, blended weights with tolerance 1e-6 (absolute, "
+        "relative to the operands where they exceed 1)",
+        "RainbowDQN: target tracking and toleranced invariance of loss, priorities, gradient and weights under "
+        "replacement of next_obs on done rows are checked here; the distributional target itself is C18",
         "after a checkpoint load, target tensors the round trip did not restore (property C07) are excluded from the "
         "first blend comparison and tagged",
         "torch CPU kernels compute each batch row independently of the other rows' values (bit-equality of the metamorphic pair)",
@@ -830,25 +1028,46 @@ def run(chk: Check) -> None:
         c = json.loads(f.read_text())
         cases.append((c.get("case", c), f.name))
     # every learner at least once per suite, then random fill
-    n_loss, n_meta, n_track = (12, 12, 30) if quick else (150, 170, 400)
-    for nm in LOSS_ALGOS:
-        cases.append((gen_loss_case(rng, chk.tier, nm), None))
+    n_loss, n_meta, n_track = (12, 20, 50) if quick else (150, 230, 420)
+    for nm in LOSS_ALGOS:                      # multi-agent ones with per-agent done flags
+        cases.append((gen_loss_case(rng, chk.tier, nm, ma_dones=True), None))
     for _ in range(max(0, n_loss - len(LOSS_ALGOS))):
         cases.append((gen_loss_case(rng, chk.tier), None))
-    for nm in LOSS_ALGOS + ["RainbowDQN"]:
-        cases.append((gen_meta_case(rng, chk.tier, nm), None))
-    for _ in range(max(0, n_meta - len(LOSS_ALGOS) - 1)):
-        cases.append((gen_meta_case(rng, chk.tier), None))
+    n0 = len(cases)
+    for nm in LOSS_ALGOS:
+        c = gen_meta_case(rng, chk.tier, nm)
+        c["perturb"] = "done"
+        if base_algo(nm) in ("MADDPG", "MATD3"):
+            c["ma_dones"] = gen_ma_dones(rng, 8)
+            c["dones"] = list(c["ma_dones"][agents.AGENT_IDS[0]])
+        cases.append((c, None))
+    for variant in ("plain", "per", "nstep", "per_nstep") * (1 if quick else 10):   # RainbowDQN, independent
+        c = gen_meta_case(rng, chk.tier, "RainbowDQN", variant)                       # 1-step / n-step dones
+        c["perturb"] = "done"
+        cases.append((c, None))
     # control: the same comparison must SEE a difference when a live row's next_obs is replaced
     for nm in ("DQN", "DDPG", "MADDPG") if quick else LOSS_ALGOS:
         c = gen_meta_case(rng, chk.tier, nm)
         c["perturb"], c["gamma"] = "live", 0.9
         cases.append((c, None))
+    for variant in ("nstep", "per_nstep") if quick else ("plain", "per", "nstep", "per_nstep"):
+        c = gen_meta_case(rng, chk.tier, "RainbowDQN", variant)
+        c["perturb"], c["gamma"], c["family"] = "live", 0.9, "vector"
+        cases.append((c, None))
+    while len(cases) - n0 < n_meta:
+        cases.append((gen_meta_case(rng, chk.tier), None))
     for nm in TRACK_ALGOS:
         cases.append((gen_track_case(rng, chk.tier, nm, "fresh"), None))
-    for pre in ("clone", "mutation", "load"):
-        for nm in (TRACK_ALGOS if not quick else rng.sample(TRACK_ALGOS, 4) + ["DQN"]):
+    for pre in ("clone", "load"):
+        for nm in (TRACK_ALGOS if not quick else rng.sample(TRACK_ALGOS, 3) + ["DQN"]):
             cases.append((gen_track_case(rng, chk.tier, nm, pre), None))
+    # learn -> Mutations.mutation of EVERY kind -> learn steps, for every learner with a target network
+    for nm in TRACK_ALGOS:
+        kinds = list(MUT_KINDS)
+        if quick and nm.startswith("MA"):
+            kinds = rng.sample(kinds, 2)       # ~5 s per multi-agent case
+        for k in kinds:
+            cases.append((gen_track_case(rng, chk.tier, nm, "mut-" + k), None))
     while sum(1 for c, _ in cases if c["kind"] == "track") < n_track:
         cases.append((gen_track_case(rng, chk.tier), None))
     counts = {"loss": [0, 0], "meta": [0, 0], "track": [0, 0]}
@@ -956,6 +1175,63 @@ def selftest(chk: Check) -> None:
         expect("delay schedule shifted by one", [orig_learn_counter_cases])
     finally:
         DDPG.learn = orig_learn
+    # (5) soft_update keeps writing into a target network that a mutation pass has replaced
+    from agilerl.algorithms import cqn as cqn_mod
+    CQN = cqn_mod.CQN
+    orig_soft3 = CQN.soft_update
+
+    def cached(self):
+        pairs = getattr(self, "_c08_pairs", None)
+        if pairs is None or pairs[0] is not self.actor:
+            pairs = (self.actor, list(zip(self.actor.parameters(), self.actor_target.parameters())))
+            self._c08_pairs = pairs
+        for e, t in pairs[1]:
+            t.data.copy_(self.tau * e.data + (1.0 - self.tau) * t.data)
+    CQN.soft_update = cached
+    try:
+        expect("soft_update writes into the target discarded by a mutation pass",
+               [{**base, "kind": "track", "algo": "CQN", "steps": 2, "prelude": "mut-none", "direct": 0}])
+    finally:
+        CQN.soft_update = orig_soft3
+    # (6) the n-step loss of prioritised Rainbow uses the 1-step done flags
+    from agilerl.algorithms import dqn_rainbow as rb_mod
+    Rainbow = rb_mod.RainbowDQN
+    orig_rb = Rainbow.learn
+
+    def wrong_flags(self, experiences, n_experiences=None, per=False):
+        if per and n_experiences is not None:
+            n_experiences = n_experiences.clone()
+            n_experiences["done"] = experiences["done"].clone()
+        return orig_rb(self, experiences, n_experiences=n_experiences, per=per)
+    Rainbow.learn = wrong_flags
+    try:
+        expect("n-step loss built from the 1-step done flags",
+               [{"kind": "meta", "algo": "RainbowDQN", "family": "vector", "seed": 4321 + i, "gamma": 0.9, "tau": 0.5,
+                 "pretrain": 1, "variant": "per_nstep", "n_step": 3, "combined_reward": False,
+                 "dones": [0, 1, 0, 0, 1, 0, 0, 0], "n_dones": [1, 0, 1, 0, 0, 1, 0, 1], "perturb": "done"}
+                for i in range(3)])
+    finally:
+        Rainbow.learn = orig_rb
+    # (7) multi-agent: every agent's done flag replaced by "all agents done"
+    from agilerl.algorithms import matd3 as matd3_mod
+    MATD3 = matd3_mod.MATD3
+    orig_ma = MATD3.learn
+
+    def joint_done(self, experiences):
+        st, ac, rw, nx, dn = experiences
+        joint = torch.stack(list(dn.values())).amin(dim=0)
+        return orig_ma(self, (st, ac, rw, nx, {k: joint for k in dn}))
+    MATD3.learn = joint_done
+    ma = {"agent_0": [1, 1, 0, 1, 0, 1, 1, 0], "agent_1": [0, 0, 0, 1, 1, 0, 0, 0], "other_0": [0, 1, 0, 0, 0, 0, 1, 1]}
+    try:
+        expect("per-agent done flags replaced by the joint flag [loss]",
+               [{**base, "kind": "loss", "algo": "MATD3", "action_kind": "box", "policy_freq": 1,
+                 "dones": ma["agent_0"], "ma_dones": ma}])
+        expect("per-agent done flags replaced by the joint flag [metamorphic]",
+               [{**base, "kind": "meta", "algo": "MATD3", "action_kind": "box", "policy_freq": 1, "judge": 0,
+                 "perturb": "done", "dones": ma["agent_0"], "ma_dones": ma}])
+    finally:
+        MATD3.learn = orig_ma
     chk.notes.append("self-test: detected " + "; ".join(caught))
 
 
